@@ -232,6 +232,14 @@ def resize (hash : K → Nat) (t : Table K V) (newSize : Nat) : Outcome (Res K V
 
 /-! ### lh_table_delete_entry / lh_table_delete -/
 
+/-- the common end of lh_table_delete_entry: `t->count--; free_fn(e); v = NULL; k = LH_FREED;` …
+`t->table[n].next = t->table[n].prev = NULL;` with the list ends / neighbour links already updated -/
+def unlinkFinish (t : Table K V) (n : Nat) (k : K) (v : V) (c : Bool) (head tail : Option Nat)
+    (next prev : List (Option Nat)) : Outcome (Res K V) :=
+  .ok { t := { t with slots := t.slots.set n .freed, count := t.count - 1, head := head, tail := tail,
+                      next := next.set n none, prev := prev.set n none },
+        ret := 0, freed := [(k, c, v)] }
+
 /-- int lh_table_delete_entry(t, e) with e = &t->table[n] -/
 def deleteEntry (t : Table K V) (n : Nat) : Outcome (Res K V) :=
   match t.slots[n]? with
@@ -240,35 +248,28 @@ def deleteEntry (t : Table K V) (n : Nat) : Outcome (Res K V) :=
   | some .freed => .ok { t := t, ret := -1 }
   | some (.live k v c) =>
     if ¬ (n < t.next.length ∧ n < t.prev.length) then .fault "delete_entry: entry outside the allocation"
+    else if t.tail = some n ∧ t.head = some n then unlinkFinish t n k v c none none t.next t.prev
+    else if t.head = some n then
+      -- t->head->next->prev = NULL; t->head = t->head->next;
+      match t.next[n]? with
+      | some (some nx) =>
+        if ¬ nx < t.prev.length then .fault "delete_entry: t->head->next outside the allocation"
+        else unlinkFinish t n k v c (some nx) t.tail t.next (t.prev.set nx none)
+      | _ => .fault "delete_entry: NULL dereference t->head->next->prev"
+    else if t.tail = some n then
+      -- t->tail->prev->next = NULL; t->tail = t->tail->prev;
+      match t.prev[n]? with
+      | some (some pv) =>
+        if ¬ pv < t.next.length then .fault "delete_entry: t->tail->prev outside the allocation"
+        else unlinkFinish t n k v c t.head (some pv) (t.next.set pv none) t.prev
+      | _ => .fault "delete_entry: NULL dereference t->tail->prev->next"
     else
-      let slots := t.slots.set n .freed           -- v = NULL; k = LH_FREED
-      let count := t.count - 1
-      let fin (head tail : Option Nat) (next prev : List (Option Nat)) : Outcome (Res K V) :=
-        .ok { t := { t with slots := slots, count := count, head := head, tail := tail,
-                            next := next.set n none, prev := prev.set n none },
-              ret := 0, freed := [(k, c, v)] }
-      if t.tail = some n ∧ t.head = some n then fin none none t.next t.prev
-      else if t.head = some n then
-        -- t->head->next->prev = NULL; t->head = t->head->next;
-        match t.next[n]? with
-        | some (some nx) =>
-          if ¬ nx < t.prev.length then .fault "delete_entry: t->head->next outside the allocation"
-          else fin (some nx) t.tail t.next (t.prev.set nx none)
-        | _ => .fault "delete_entry: NULL dereference t->head->next->prev"
-      else if t.tail = some n then
-        -- t->tail->prev->next = NULL; t->tail = t->tail->prev;
-        match t.prev[n]? with
-        | some (some pv) =>
-          if ¬ pv < t.next.length then .fault "delete_entry: t->tail->prev outside the allocation"
-          else fin t.head (some pv) (t.next.set pv none) t.prev
-        | _ => .fault "delete_entry: NULL dereference t->tail->prev->next"
-      else
-        -- t->table[n].prev->next = t->table[n].next; t->table[n].next->prev = t->table[n].prev;
-        match t.prev[n]?, t.next[n]? with
-        | some (some pv), some (some nx) =>
-          if ¬ (pv < t.next.length ∧ nx < t.prev.length) then .fault "delete_entry: neighbour outside the allocation"
-          else fin t.head t.tail (t.next.set pv (some nx)) (t.prev.set nx (some pv))
-        | _, _ => .fault "delete_entry: NULL dereference of table[n].prev / table[n].next"
+      -- t->table[n].prev->next = t->table[n].next; t->table[n].next->prev = t->table[n].prev;
+      match t.prev[n]?, t.next[n]? with
+      | some (some pv), some (some nx) =>
+        if ¬ (pv < t.next.length ∧ nx < t.prev.length) then .fault "delete_entry: neighbour outside the allocation"
+        else unlinkFinish t n k v c t.head t.tail (t.next.set pv (some nx)) (t.prev.set nx (some pv))
+      | _, _ => .fault "delete_entry: NULL dereference of table[n].prev / table[n].next"
 
 /-- int lh_table_delete(t, k) -/
 def delete [DecidableEq K] (hash : K → Nat) (t : Table K V) (k : K) : Outcome (Res K V) :=
